@@ -903,6 +903,16 @@ private:
     {
       if (opcode == WsOpcode::TEXT)
       {
+        // RFC 6455 Section 8.1: a TEXT message that is not valid UTF-8 fails
+        // the connection (same check as WebSocketServer::handleDataFrame).
+        WebSocketFrame temp;
+        temp.payload = payload;
+        if (!temp.isValidUtf8())
+        {
+          sendClose(1007, "Invalid UTF-8");
+          return;
+        }
+
         if (_onTextMessage)
         {
           std::string text(payload.begin(), payload.end());
